@@ -1236,6 +1236,10 @@ def _replay_nb(qualname, case, clause, model, seed):
 VDSQ = "PyMatterSim.static.vector.vector_decomposition_sq"
 TCORR = "PyMatterSim.dynamic.time_corr.time_correlation"
 HEADERS = ["FFT", "T_FFT", "L_FFT"]
+CALL_V = ["call:vector_decomposition_sq:snapshot=frame-n-of-the-trajectory", "call:vector_decomposition_sq:qvector=the-wave-vector-array",
+          "call:vector_decomposition_sq:vector=vectors[n]", "call:vector_decomposition_sq:no-per-frame-file"]
+CALL_T = ["call:time_correlation:snapshots=the-trajectory", "call:time_correlation:condition=(T,d)-columns-of-this-header-at-wave-vector-n-over-frames",
+          "call:time_correlation:dt", "call:time_correlation:no-output-file", "call:time_correlation:frame-spacing-as-assumed"]
 AVE_COLS = ["q", "Sq", "Sq_T", "Sq_L"]
 
 
@@ -1245,58 +1249,32 @@ def _vf_order(d):
 
 
 class FrameTables:
-    """What vector_decomposition_sq returns for frame s of the trajectory, as stated by its own contract (VectorDecompositionSq.ensures,
-    clauses a-d, f): the transform of frame s returned by conditional_sq is arbitrary — uninterpreted CQ(s,n,c), CQN(s,n) (>= 0), CSQ(s,n),
-    CF(s,n,c) (complex) — and with qhat = CQ/CQN (where CQN != 0)
-        q_c = round8(CQ), q = round8(CQN), Sq = round8(CSQ), FFT_c = round8(CF_c),
-        L_FFT_c = round8(qhat_c (qhat . CF)), T_FFT_c = round8(CF_c - qhat_c (qhat . CF)), Sq_L = round8(sum|L_c|^2), Sq_T = round8(sum|T_c|^2)
-    (rows with CQN = 0, where the callee's contract says nothing about L and T: unspecified values UL, UT, USL, UST).
-    The averaged table of frame s (clause f: one row per distinct rounded |q|, group means) enters only as "the averaged table the callee
-    returned": uninterpreted AVE(s, g, column) with G rows (G the same for every frame: precondition of vector_fft_corr, see NOT_DECIDED)."""
+    """What vector_decomposition_sq returns for frame s of the trajectory, as far as vector_fft_corr needs it: a table with Q rows and the
+    columns q0..q<d-1>, q, Sq, FFT0.., T_FFT0.., Sq_T, L_FFT0.., Sq_L (FFT/T_FFT/L_FFT complex) and an averaged table with the columns
+    q, Sq, Sq_T, Sq_L.  The VALUES are whatever the callee returns: uninterpreted TAB_<column>(s, n) (real and imaginary part for the
+    complex columns) and AVE(s, g, column).  Their relation to the transform of frame s (q_c = round8(2 pi n_c / L_c), FFT = round8(F),
+    L_FFT = round8(qhat (qhat . F)), T_FFT = round8(F - L), Sq_L/Sq_T = round8(|.|^2), group means over equal rounded |q|) is the
+    callee's own contract, proved for its body by the unit VectorDecompositionSq above (clauses a-d, f) and not needed here: everything
+    proved about vector_fft_corr holds for any tables.  The averaged table has G rows in every frame (precondition of vector_fft_corr,
+    see NOT_DECIDED)."""
 
     def __init__(self, d, Q, G):
         self.d, self.Q, self.G = d, Q, G
         I, R = z3.IntSort(), z3.RealSort()
-        f3 = lambda nm: z3.Function(nm, I, I, I, R)
-        f2 = lambda nm: z3.Function(nm, I, I, R)
-        self.CQ, self.CQN, self.CSQ = f3("CQ"), f2("CQN"), f2("CSQ")
-        self.CFre, self.CFim = f3("CF_re"), f3("CF_im")
-        self.ULre, self.ULim, self.UTre, self.UTim = f3("UL_re"), f3("UL_im"), f3("UT_re"), f3("UT_im")
-        self.USL, self.UST = f2("USL"), f2("UST")
-        self.AVE = f3("AVE")
+        self.fn = {}
+        for nm in _vf_order(d):
+            if "FFT" in nm:
+                self.fn[nm] = (z3.Function(f"TAB_{nm}_re", I, I, R), z3.Function(f"TAB_{nm}_im", I, I, R))
+            else:
+                self.fn[nm] = z3.Function(f"TAB_{nm}", I, I, R)
+        self.AVE = z3.Function("AVE", I, I, I, R)
 
     def col(self, name):
         """(s, n) -> value of column `name` of frame s's table at row n"""
-        d = self.d
-        z = sv.znum
-        r8 = lambda v: sv.round_dec(v, 8)
-        qn = lambda s, n: sv.absv(sv.SV(self.CQN(z(s), z(n))))
-        F = lambda s, n, c: sv.Cx(sv.SV(self.CFre(z(s), z(n), z(c))), sv.SV(self.CFim(z(s), z(n), z(c))))
-
-        def split(s, n):
-            qh = [sv.div(sv.SV(self.CQ(z(s), z(n), z(c))), qn(s, n)) for c in range(d)]
-            return split_spec(qh, [F(s, n, c) for c in range(d)])
-        if name == "q":
-            return lambda s, n: r8(qn(s, n))
-        if name == "Sq":
-            return lambda s, n: r8(sv.SV(self.CSQ(z(s), z(n))))
-        if name in ("Sq_L", "Sq_T"):
-            k = 1 if name == "Sq_L" else 2
-            U = self.USL if name == "Sq_L" else self.UST
-            return lambda s, n: sv.ite(sv.cmp("!=", qn(s, n), 0), lambda: r8(_sum([_cabs2(x) for x in split(s, n)[k]])), lambda: sv.SV(U(z(s), z(n))))
-        c = int(name[-1])
-        if name.startswith("q"):
-            return lambda s, n: r8(sv.SV(self.CQ(z(s), z(n), z(c))))
-        if name.startswith("FFT"):
-            return lambda s, n: r8(F(s, n, c))
-        k = 1 if name.startswith("L_FFT") else 2
-        Ure, Uim = (self.ULre, self.ULim) if k == 1 else (self.UTre, self.UTim)
-
-        def lt(s, n):
-            nz = sv.cmp("!=", qn(s, n), 0)
-            v = lambda: sv.as_cx(r8(split(s, n)[k][c]))
-            return sv.Cx(sv.ite(nz, lambda: v().re, lambda: sv.SV(Ure(z(s), z(n), z(c)))), sv.ite(nz, lambda: v().im, lambda: sv.SV(Uim(z(s), z(n), z(c)))))
-        return lt
+        f = self.fn[name]
+        if isinstance(f, tuple):
+            return lambda s, n: sv.Cx(sv.SV(f[0](sv.znum(s), sv.znum(n))), sv.SV(f[1](sv.znum(s), sv.znum(n))))
+        return lambda s, n: sv.SV(f(sv.znum(s), sv.znum(n)))
 
     def dtype(self, name):
         return "complex" if "FFT" in name else "float"
@@ -1407,7 +1385,6 @@ class VectorFftCorr(Unit):
             outputfile = "" (nothing is written per frame); ensures: (table of frame s, averaged table of frame s), see FrameTables"""
             a = dict(zip(["snapshot", "qvector", "vector", "outputfile"], args))
             a.update(kwargs)
-            st = cur()
             snap = a.get("snapshot")
             pos = snap.content.get("positions") if isinstance(snap, Ref) and snap.kind == "obj" else None
             s = None
@@ -1417,21 +1394,17 @@ class VectorFftCorr(Unit):
                 if isinstance(t, sv.SV) and z3.is_app(t.t) and t.t.decl().name() == tr.POS.name() and t.t.arg(1).eq(i0.t) and t.t.arg(2).eq(c0.t):
                     s = sv.wrap(t.t.arg(0))
             if s is None:
-                st.require(False, "call:vector_decomposition_sq:pre:snapshot-is-a-frame-of-the-trajectory")
+                _call_req(False, CALL_V[0])
                 raise sv.EngineError("vector_decomposition_sq summary: snapshot argument is not a frame of the trajectory")
-            st.require(sv.and_(sv.cmp(">=", s, 0), sv.cmp("<", s, T)), "call:vector_decomposition_sq:pre:snapshot-is-a-frame-of-the-trajectory")
             bl = snap.content.get("boxlength")
-            ok = isinstance(bl, A.Arr) and bl.ndim == 1
-            st.require(bool(ok), "call:vector_decomposition_sq:pre:snapshot-boxlength")
-            if ok:
-                c1 = sv.fresh_int("bc")
-                st.require(sv.implies(sv.and_(sv.cmp(">=", c1, 0), sv.cmp("<", c1, d)), sv.cmp("==", bl.get((c1,)), tr.bl(s, c1))),
-                           "call:vector_decomposition_sq:pre:snapshot-boxlength")
-            st.require(sv.cmp("==", snap.content.get("nparticle"), N), "call:vector_decomposition_sq:pre:nparticle")
-            _same_real_array(a.get("qvector"), QV, "call:vector_decomposition_sq:pre:qvector-is-the-wave-vector-array")
+            c1 = sv.fresh_int("bc")
+            okb = isinstance(bl, A.Arr) and bl.ndim == 1 and A.dim_conc(bl.shape[0]) and bl.shape[0] == d
+            _call_req(sv.and_(sv.cmp(">=", s, 0), sv.cmp("<", s, T), sv.cmp("==", snap.content.get("nparticle"), N),
+                              sv.implies(sv.and_(sv.cmp(">=", c1, 0), sv.cmp("<", c1, d)), sv.cmp("==", bl.get((c1,)), tr.bl(s, c1))) if okb else False), CALL_V[0])
+            _same_array_req(a.get("qvector"), QV, CALL_V[1])
             row = A.new_arr((N, d), lambda idx: V.get((s, idx[0], idx[1])), "float")
-            _same_real_array(a.get("vector"), row, "call:vector_decomposition_sq:pre:vector=vectors[frame]")
-            st.require(a.get("outputfile", "") == "", "call:vector_decomposition_sq:pre:no-per-frame-file")
+            _same_array_req(a.get("vector"), row, CALL_V[2])
+            _call_req(a.get("outputfile", "") == "", CALL_V[3])
             return (FT.table(s), FT.ave_table(lambda g, ci: FT.ave(s, g, ci)))
 
         # ---------------------------------------------------------------- callee contract: time_correlation (C14)
@@ -1451,28 +1424,31 @@ class VectorFftCorr(Unit):
             a = dict(zip(["snapshots", "condition", "dt", "outputfile"], args))
             a.update(kwargs)
             st = cur()
-            st.require(getattr(a.get("snapshots"), "sid", None) == snaps.sid, "call:time_correlation:pre:snapshots-is-the-trajectory")
+            _call_req(getattr(a.get("snapshots"), "sid", None) == snaps.sid, CALL_T[0])
             cond = a.get("condition")
             ok = isinstance(cond, A.Arr) and cond.ndim == 2 and cond.dtype == "complex" and A.dim_conc(cond.shape[1]) and cond.shape[1] == d
-            st.require(bool(ok), "call:time_correlation:pre:condition-is-a-complex-(T,d)-array")
             if not ok:
-                raise sv.EngineError("time_correlation summary: condition")
-            A.require_dim_eq(cond.shape[0], T, "call:time_correlation:pre:condition-has-one-row-per-frame")
+                _call_req(False, CALL_T[1])
+                raise sv.EngineError("time_correlation summary: condition is not a complex (T, d) array")
             exp = inp.get("expect")
             if exp is not None:
-                _same_cx_array(cond, X_of(exp[0], exp[1]), "call:time_correlation:pre:condition=columns-of-this-header-at-this-wave-vector-over-frames")
-            st.require(sv.cmp("==", a.get("dt", sv.to_frac(0.002)), dt), "call:time_correlation:pre:dt")
-            st.require(a.get("outputfile", "") == "", "call:time_correlation:pre:no-output-file")
+                # inside the wave-vector loop of header H at wave vector n: the argument must be condition_{H,n}; the callee's result is
+                # then the contract value for condition_{H,n} (the contract is a function of the array's shape and elements)
+                want = X_of(exp[0], exp[1])
+                _same_array_req(cond, want, CALL_T[1])
+                cond = want
+            else:
+                _call_req(sv.cmp("==", cond.shape[0], T), CALL_T[1])
+            _call_req(sv.cmp("==", a.get("dt", sv.to_frac(0.002)), dt), CALL_T[2])
+            _call_req(a.get("outputfile", "") == "", CALL_T[3])
             # spacing of the frames as the callee sees it (its contract has one clause per kind of spacing)
             j = sv.fresh_int("tj")
             if spacing == "linear":
-                st.require(sv.cmp(">=", T, 2), "call:time_correlation:pre:evenly-spaced-frames")
-                st.require(sv.implies(sv.and_(sv.cmp(">=", j, 0), sv.cmp("<", j, T)), sv.cmp("==", tsf(j), sv.add(ts0, sv.mul(j, h)))),
-                           "call:time_correlation:pre:evenly-spaced-frames")
+                _call_req(sv.and_(sv.cmp(">=", T, 2), sv.implies(sv.and_(sv.cmp(">=", j, 0), sv.cmp("<", j, T)), sv.cmp("==", tsf(j), sv.add(ts0, sv.mul(j, h))))),
+                          CALL_T[4])
             else:
-                st.require(sv.or_(sv.cmp("==", T, 1), sv.and_(w >= 0, sv.cmp("<", w, sv.sub(T, 1)),
-                                                           sv.cmp("!=", sv.sub(tsf(sv.add(w, 1)), tsf(w)), sv.sub(tsf(1), tsf(0))))),
-                           "call:time_correlation:pre:unevenly-spaced-frames")
+                _call_req(sv.or_(sv.cmp("==", T, 1), sv.and_(w >= 0, sv.cmp("<", w, sv.sub(T, 1)),
+                                                          sv.cmp("!=", sv.sub(tsf(sv.add(w, 1)), tsf(w)), sv.sub(tsf(1), tsf(0))))), CALL_T[4])
             df, c0 = tc_table(cond)
             # precondition of vector_fft_corr (statement: the correlation is normalised by its lag-zero value): instance for this call
             st.assume(sv.cmp("!=", c0, 0))
@@ -1488,48 +1464,87 @@ class VectorFftCorr(Unit):
         ctx.interp.summaries[TCORR] = tcorr
 
         # ---------------------------------------------------------------- written invariant of the frame loop
-        def side(kind, goals, s2, where, clause=None):
+        def side(kind, goals, s2, where, clause=None, sigma=False):
             for g in goals:
                 sg = _SideGoal(kind, g, s2.all_assumptions(), where)
                 if clause:
                     sg.clause = clause
+                # the invariants follow by linear arithmetic + congruence (both sides are built from the same callee-contract terms):
+                # one attempt with products as uninterpreted functions, no fall-back chain (a false goal must fail fast)
+                sg.opts = {"abstract_nl": True, "abstract_only": True}
+                if not sigma:       # no Σ-term has to be unfolded: no Σ-axiom instances in the query
+                    sg.opts.update({"unfold": False, "ext": False, "rounds": 1})
                 st0.side.append(sg)
 
+        def adopt(st, frame, s4, f4):
+            """the current path continues from the forked state s4 / frame f4"""
+            for attr in ("heap", "pc", "events", "decisions", "trace", "fresh", "where"):
+                setattr(st, attr, getattr(s4, attr))
+            frame.env.clear()
+            frame.env.update(f4.env)
+
+        def body_run(interp, s, frame, st, item_fn, kv, lo, hi, prepare, drop, what):
+            """one execution of the loop body at index kv in a fork of st; `prepare(fr, st2)` installs the invariant state; the locals in
+            `drop` (assigned by the body, not described by the invariant) are unbound first, so that a read before the assignment is not
+            a normal path"""
+            fr = Frame(frame.module, dict(frame.env), frame.fname)
+            st2 = st.fork()
+            st2.pc = list(st.pc) + [sv.zb(sv.cmp(">=", kv, lo)), sv.zb(sv.cmp("<", kv, hi))]
+            with use_state(st2):
+                for nm in drop:
+                    fr.env.pop(nm, None)
+                prepare(fr, st2)
+                interp.assign(s.target, item_fn(kv), fr)
+                outs = interp.exec_block_paths(s.body, fr, st2)
+            normal = [(f2, s2) for f2, s2, out in outs if out[0] == "normal"]
+            if len(outs) != 1 or len(normal) != 1:
+                raise sv.EngineError(f"vector_fft_corr {what}: body does not have a single normal path ({[o[2] for o in outs]})")
+            return normal[0]
+
         def frame_loop(interp, s, frame, st, lo, hi, item_fn):
-            """after k >= 1 frames:  spectra = sum_{t<k} (averaged table of frame t)  (a DataFrame, columns q, Sq, Sq_T, Sq_L, G rows),
-            vectors_fft = [table of frame 0, ..., table of frame k-1]"""
+            """after k >= 1 frames:  <accumulator> = sum_{t<k} (averaged table of frame t)  (a DataFrame, columns q, Sq, Sq_T, Sq_L, G rows),
+            <list> = [table of frame 0, ..., table of frame k-1].  The accumulator (local that is 0 before the loop and a DataFrame after
+            the first iteration) and the list (empty before, changed by the first iteration) are found by executing the first iteration."""
+            from pyvc.loops import _assigned_names
+            import ast as _ast
             where = f"{frame.fname}:{s.lineno}"
-            lst = frame.env.get("vectors_fft")
-            if not (isinstance(lst, Ref) and lst.kind == "list" and not isinstance(lst.content, A.SeqVal) and len(lst.content) == 0) \
-                    or not (sv.is_conc(lo) and lo == 0):
-                raise sv.EngineError("vector_fft_corr frame loop: unexpected pre-state (vectors_fft must be an empty list)")
+            what = "frame loop"
+            if not (sv.is_conc(lo) and lo == 0):
+                raise sv.EngineError("vector_fft_corr frame loop: iteration space does not start at 0")
+            if not interp.decide(sv.cmp(">=", hi, 2)):
+                # a single frame: the loop is its first iteration (executed as it is)
+                interp.assign(s.target, item_fn(0), frame)
+                interp.exec_body_single(s.body, frame)
+                return
+            targets = _assigned_names([_ast.Assign(targets=[s.target], value=_ast.Constant(0))])
+            assigned = _assigned_names(s.body)
+            pre_env, pre_heap = dict(frame.env), dict(st.heap)
+            f2, s2 = body_run(interp, s, frame, st, item_fn, 0, lo, hi, lambda fr, st2: None, (), what)
+            is_df = lambda v: isinstance(v, Ref) and v.kind == "df"
+            acc = [nm for nm, v in pre_env.items() if nm not in targets and isinstance(v, int) and not isinstance(v, bool) and v == 0 and is_df(f2.env.get(nm))]
+            lists = [sid for sid, c in pre_heap.items() if c.kind == "list" and isinstance(c.data, tuple) and len(c.data) == 0 and s2.heap.get(sid) is not c]
+            others = [sid for sid, c in pre_heap.items() if s2.heap.get(sid) is not c and sid not in lists]
+            if len(acc) != 1 or len(lists) != 1 or others:
+                raise sv.EngineError(f"vector_fft_corr frame loop: expected one accumulator and one list (found {acc}, {len(lists)} lists, {len(others)} other cells written)")
+            acc, lsid = acc[0], lists[0]
+            drop = [nm for nm in assigned if nm != acc and nm not in targets]
             seq_fn = lambda t: FT.table(t)
 
             def inv_spectra(k):
                 return FT.ave_table(lambda g, ci: Sum(0, k, lambda t: FT.ave(t, g, ci)))
 
-            def run(kv, spectra, listed, extra):
-                fr = Frame(frame.module, dict(frame.env), frame.fname)
-                st2 = st.fork()
-                st2.pc = list(st.pc) + [sv.zb(sv.cmp(">=", kv, lo)), sv.zb(sv.cmp("<", kv, hi))] + extra
-                with use_state(st2):
-                    if spectra is not None:
-                        fr.env["spectra"] = spectra()
-                    if listed is not None:
-                        c = st2.heap[lst.sid]
-                        st2.heap[lst.sid] = Content("list", A.SeqVal(listed, seq_fn), c.meta)
-                    interp.assign(s.target, item_fn(kv), fr)
-                    outs = interp.exec_block_paths(s.body, fr, st2)
-                normal = [(f2, s2) for f2, s2, out in outs if out[0] == "normal"]
-                if len(outs) != 1 or len(normal) != 1:
-                    raise sv.EngineError("vector_fft_corr frame loop: body does not have a single normal path")
-                return normal[0]
+            def install(k):
+                def prepare(fr, st2):
+                    fr.env[acc] = inv_spectra(k)
+                    c = st2.heap[lsid]
+                    st2.heap[lsid] = Content("list", A.SeqVal(k, seq_fn), c.meta)
+                return prepare
 
             def check(f2, s2, kv, kind):
                 nxt = A.simp(sv.add(kv, 1))
                 with use_state(s2):
-                    side(kind, _df_eq_goals(f2.env.get("spectra"), inv_spectra(nxt), AVE_COLS, G), s2, where, "spectra:loop-invariant")
-                    c = s2.heap[lst.sid].data
+                    side(kind, _df_eq_goals(f2.env.get(acc), inv_spectra(nxt), AVE_COLS, G), s2, where, "spectra:loop-invariant", sigma=True)
+                    c = s2.heap[lsid].data
                     if sv.is_conc(kv):
                         okl = isinstance(c, tuple) and len(c) == 1
                         last = c[0] if okl else None
@@ -1538,96 +1553,95 @@ class VectorFftCorr(Unit):
                         last = c.last if okl else None
                     goals = _df_eq_goals(last, FT.table(kv), _vf_order(d), Q) if okl else [z3.BoolVal(False)]
                     side(kind, goals, s2, where, "vectors_fft:loop-invariant")
-            f2, s2 = run(lo, None, None, [])
+                    bad = [sid for sid, c0 in pre_heap.items() if s2.heap.get(sid) is not c0 and sid != lsid]
+                    if bad:
+                        raise sv.EngineError("vector_fft_corr frame loop: the body writes a cell the invariant does not describe")
             check(f2, s2, lo, "loop-init")
             k = sv.fresh_int("k")
-            f3, s3 = run(k, lambda: inv_spectra(k), k, [sv.zb(sv.cmp(">=", k, 1))])
+            st.pc.append(sv.zb(sv.cmp(">=", k, 1)))     # (only constrains the fresh k)
+            f3, s3 = body_run(interp, s, frame, st, item_fn, k, lo, hi, install(k), drop, what)
             check(f3, s3, k, "loop-step")
-            # post-state
-            frame.env["spectra"] = inv_spectra(hi)
-            c = st.heap[lst.sid]
-            st.heap[lst.sid] = Content("list", A.SeqVal(hi, seq_fn), c.meta)
+            # post-state: the last iteration (index hi - 1 >= 1) from the invariant state, then the invariant at hi
             last = A.simp(sv.sub(hi, 1))
-            interp.assign(s.target, item_fn(last), frame)
-            frame.env["vector_fft"] = FT.table(last)
-            frame.env["ave_sqresults"] = FT.ave_table(lambda g, ci: FT.ave(last, g, ci))
+            f4, s4 = body_run(interp, s, frame, st, item_fn, last, lo, hi, install(last), drop, what)
+            adopt(st, frame, s4, f4)
+            frame.env[acc] = inv_spectra(hi)
+            c = st.heap[lsid]
+            st.heap[lsid] = Content("list", A.SeqVal(hi, seq_fn), c.meta)
 
         # ---------------------------------------------------------------- written invariant of the wave-vector loop (per header)
         def tc_col(H, n):
-            """time_corr column of the callee's table for condition_{H,n}"""
+            """the callee's table for condition_{H,n}"""
             df, _ = tc_table(X_of(H, n))
             return df
 
         def q_loop(interp, s, frame, st, lo, hi, item_fn):
-            """after k >= 1 wave vectors:  cal_data[:, j] = time_correlation(condition_{H,j})["time_corr"] for j < k and still 0 for j >= k;
-            medium = the callee's table for wave vector k-1"""
+            """after k wave vectors:  <wide frame>[:, j] = time_correlation(condition_{H,j})["time_corr"] for j < k, unchanged for j >= k.
+            H = the header of the enclosing iteration, the wide frame = the frame with one column per wave vector (both found in the
+            locals by their values: the only header string, the only wide frame without named columns)."""
+            from pyvc.loops import _assigned_names
+            import ast as _ast
             where = f"{frame.fname}:{s.lineno}"
-            H = frame.env.get("header")
-            cal = frame.env.get("cal_data")
-            if H not in HEADERS or not _is_wide(cal) or not (sv.is_conc(lo) and lo == 0):
-                raise sv.EngineError("vector_fft_corr wave-vector loop: unexpected pre-state")
+            what = "wave-vector loop"
+            Hs = [v for v in frame.env.values() if isinstance(v, str) and v in HEADERS]
+            cals = [v for v in frame.env.values() if _is_wide(v) and not wide_content(v)["pre"]["order"]]
+            if len(set(Hs)) != 1 or len({c.sid for c in cals}) != 1 or not (sv.is_conc(lo) and lo == 0):
+                raise sv.EngineError("vector_fft_corr wave-vector loop: unexpected pre-state (one header, one wide frame expected)")
+            H, cal = Hs[0], cals[0]
+            targets = _assigned_names([_ast.Assign(targets=[s.target], value=_ast.Constant(0))])
+            drop = [nm for nm in _assigned_names(s.body) if nm not in targets]
+            pre_heap = dict(st.heap)
             cell0 = st.heap[cal.sid]
             blk = wide_content(cal)["block"]
             pre_block = blk.reader()
+            tcv = lambda n, t: df_content(tc_col(H, n))["cols"]["time_corr"].get((t,))
 
             def inv_block(k):
-                def fn(idx):
-                    t, j = idx
-                    return sv.ite(sv.cmp("<", j, k), lambda: df_content(tc_col(H, j))["cols"]["time_corr"].get((t,)), lambda: pre_block(idx))
-                return fn
+                return lambda idx: sv.ite(sv.cmp("<", idx[1], k), lambda: tcv(idx[1], idx[0]), lambda: pre_block(idx))
 
-            def run(kv, block_k, medium, extra):
-                fr = Frame(frame.module, dict(frame.env), frame.fname)
-                st2 = st.fork()
-                st2.pc = list(st.pc) + [sv.zb(sv.cmp(">=", kv, lo)), sv.zb(sv.cmp("<", kv, hi))] + extra
-                with use_state(st2):
-                    if block_k is not None:
-                        c = st2.heap[blk.sid]
-                        st2.heap[blk.sid] = Content("arr", A._memo(inv_block(block_k)), c.meta)
-                        fr.env["medium"] = medium()
-                    interp.assign(s.target, item_fn(kv), fr)
-                    inp["expect"] = (H, kv)
-                    try:
-                        outs = interp.exec_block_paths(s.body, fr, st2)
-                    finally:
-                        inp["expect"] = None
-                normal = [(f2, s2) for f2, s2, out in outs if out[0] == "normal"]
-                if len(outs) != 1 or len(normal) != 1:
-                    raise sv.EngineError("vector_fft_corr wave-vector loop: body does not have a single normal path")
-                return normal[0]
+            def install(k):
+                def prepare(fr, st2):
+                    c = st2.heap[blk.sid]
+                    st2.heap[blk.sid] = Content("arr", A._memo(inv_block(k)), c.meta)
+                return prepare
+
+            def run(kv, prepare, dr):
+                inp["expect"] = (H, kv)
+                try:
+                    return body_run(interp, s, frame, st, item_fn, kv, lo, hi, prepare, dr, what)
+                finally:
+                    inp["expect"] = None
 
             def check(f2, s2, kv, kind):
                 nxt = A.simp(sv.add(kv, 1))
+                clause = f"{H}:cal_data:loop-invariant"
                 with use_state(s2):
-                    same = s2.heap[cal.sid] is cell0 and _is_wide(f2.env.get("cal_data")) and f2.env["cal_data"].sid == cal.sid
-                    if not same:
-                        side(kind, [z3.BoolVal(False)], s2, where, f"{H}:cal_data:loop-invariant")
-                        return
+                    bad = [sid for sid, c0 in pre_heap.items() if s2.heap.get(sid) is not c0 and sid != blk.sid]
+                    if bad:
+                        raise sv.EngineError("vector_fft_corr wave-vector loop: the body writes a cell the invariant does not describe")
                     t, j = sv.fresh_int("t"), sv.fresh_int("j")
                     inr = sv.and_(sv.cmp(">=", t, 0), sv.cmp("<", t, T), sv.cmp(">=", j, 0), sv.cmp("<", j, Q))
                     got = s2.heap[blk.sid].data((t, j))
                     if sv.is_conc(kv):
                         # inv(lo + 1) at column j >= 0: j < lo + 1 iff j == lo (stated with the concrete column so that the callee's
                         # Σ-terms are the ones of the call with n = lo)
-                        want = sv.ite(sv.cmp("==", j, kv), lambda: df_content(tc_col(H, kv))["cols"]["time_corr"].get((t,)), lambda: pre_block((t, j)))
+                        want = sv.ite(sv.cmp("==", j, kv), lambda: tcv(kv, t), lambda: pre_block((t, j)))
                     else:
                         want = inv_block(nxt)((t, j))
-                    side(kind, [sv.zb(sv.implies(inr, sv.cmp("==", got, want)))], s2, where, f"{H}:cal_data:loop-invariant")
-                    side(kind, _df_eq_goals(f2.env.get("medium"), tc_col(H, kv), ["t", "time_corr"], T), s2, where, f"{H}:cal_data:loop-invariant")
-            f2, s2 = run(lo, None, None, [])
+                    side(kind, [sv.zb(sv.implies(inr, sv.cmp("==", got, want)))], s2, where, clause)
+            f2, s2 = run(lo, lambda fr, st2: None, ())
             check(f2, s2, lo, "loop-init")
             k = sv.fresh_int("k")
-            km1 = A.simp(sv.sub(k, 1))
-            f3, s3 = run(k, k, lambda: tc_col(H, km1), [sv.zb(sv.cmp(">=", k, 1))])
+            st.pc.append(sv.zb(sv.cmp(">=", k, 1)))     # (only constrains the fresh k)
+            f3, s3 = run(k, install(k), drop)
             check(f3, s3, k, "loop-step")
-            # post-state
+            # post-state: the last iteration (index hi - 1 >= 0) from the invariant state, then the invariant at hi
+            last = A.simp(sv.sub(hi, 1))
+            f4, s4 = run(last, install(last), drop)
+            adopt(st, frame, s4, f4)
             c = st.heap[blk.sid]
             st.heap[blk.sid] = Content("arr", A._memo(inv_block(hi)), c.meta)
             st.events.append(("store", blk.sid, where, list(st.pc)))
-            last = A.simp(sv.sub(hi, 1))
-            interp.assign(s.target, item_fn(last), frame)
-            frame.env["medium"] = tc_col(H, last)
-            frame.env.pop("condition", None)
 
         l1, l2 = _vfc_loops()
         if l1 is not None:
@@ -1643,7 +1657,7 @@ class VectorFftCorr(Unit):
 
     def clause_names(self, case):
         names = ["returns-dict-with-exactly-the-keys-FFT,T_FFT,L_FFT", "spectra=frame-average-of-the-averaged-tables", "spectra:csv-file",
-                 "spectra:loop-invariant", "vectors_fft:loop-invariant", "frame:inputs-not-written"]
+                 "spectra:loop-invariant", "vectors_fft:loop-invariant", "frame:inputs-not-written"] + CALL_V + CALL_T
         for H in HEADERS:
             names += [f"{H}:frame-shape-and-columns", f"{H}:q-columns=round8(frame-0-table)", f"{H}:lag-columns=round8(time_correlation(condition_n).time_corr)",
                       f"{H}:lag-column-labels=t-column-of-the-callee", f"{H}:npy-file=values", f"{H}:cal_data:loop-invariant"]
@@ -1715,25 +1729,40 @@ class VectorFftCorr(Unit):
         return _replay_fft_corr(case, clause, model, seed)
 
 
-def _same_real_array(a, b, what):
-    """call-site obligation: array argument `a` has the shape and, at an arbitrary index, the elements of `b`"""
+def _call_req(cond, clause, assume=True):
+    """precondition of a callee contract at a call site: a NAMED obligation of the unit (proved under the path condition of the call,
+    reported as `<unit>:<clause>`), assumed afterwards like every checked requirement (unless assume=False: nothing later relies on it)"""
+    from pyvc.loops import _SideGoal
     from pyvc.state import cur
     st = cur()
+    if isinstance(cond, bool):
+        g = z3.BoolVal(cond)
+    else:
+        g = sv.zb(cond)
+    sg = _SideGoal("call-site:" + clause, g, st.all_assumptions(), st.where)
+    sg.clause = clause
+    sg.opts = {"unfold": False, "ext": False, "rounds": 1}      # argument checks: no Σ-term has to be unfolded
+    st.side.append(sg)
+    if assume and not isinstance(cond, bool):
+        st.assume(cond)
+
+
+def _same_array_req(a, b, clause):
+    """call-site obligation: array argument `a` has the rank, dtype, shape and, at an arbitrary index, the elements of `b`"""
     if not isinstance(a, A.Arr) or a.ndim != b.ndim or a.dtype != b.dtype:
-        st.require(False, what)
+        _call_req(False, clause)
         return
     if a.sid == b.sid and a.view is None and b.view is None:
+        _call_req(True, clause)
         return
     idx, conds = [], []
     for k in range(b.ndim):
-        A.require_dim_eq(a.shape[k], b.shape[k], what)
+        if not A.dim_eq_syntactic(a.shape[k], b.shape[k]):
+            _call_req(sv.cmp("==", a.shape[k], b.shape[k]), clause)
         t = sv.fresh_int("ai")
         idx.append(t)
         conds.append(sv.and_(sv.cmp(">=", t, 0), sv.cmp("<", t, b.shape[k])))
-    st.require(sv.implies(sv.and_(*conds), _cx_eq(a.get(tuple(idx)), b.get(tuple(idx)))), what)
-
-
-_same_cx_array = _same_real_array
+    _call_req(sv.implies(sv.and_(*conds), _cx_eq(a.get(tuple(idx)), b.get(tuple(idx)))), clause, assume=False)
 
 
 def fft_corr_reference(positions, boxes, vectors, qvector, timesteps, dt, spacing):
@@ -1922,6 +1951,20 @@ UNITS = [ParticipationRatio(), LocalAlignment(), PhaseQuotient(), DivergenceCurl
 # callee contracts of other properties used at call sites: their units are re-verified with this check
 from contracts.common import callee_units as _callee_units   # noqa: E402
 UNITS = UNITS + _callee_units([('C02', None), ('C05', {'read_neighbors'}), ('C13', {'conditional_sq'})], UNITS)
+
+
+def _time_correlation_callee():
+    """the cases of the C14 unit whose contract vector_fft_corr uses at its call site: rank-2 complex condition (T, d), evenly and
+    unevenly spaced frames (the whole C14 unit has 28 cases; `./check C14` runs them all)"""
+    from contracts import C14
+
+    class TimeCorrelationCallee(C14.TimeCorr):
+        def cases(self):
+            return ["rank2/complex/linear", "rank2/complex/log"]
+    return TimeCorrelationCallee()
+
+
+UNITS = UNITS + [_time_correlation_callee()]
 
 MANIFEST = {
     "text": "Six functions of PyMatterSim/static/vector.py, real ASTs, symbolic particle number N, coordination numbers CN_i, mode number K and wave-vector number Q, d in {2,3}, every clause at an arbitrary symbolic index: participation_ratio = (sum|e|^2)^2/(N sum|e|^4), in [1/N,1] for e != 0 (two Cauchy-Schwarz type facts proved by induction over N), invariant under e -> c e (second symbolic run of the real body); local_vector_alignment_i = mean over the neighbour list of e_i.e_j; phase_quotient = sum e_i.e_j / sum|e_i.e_j| and in [-1,1] (triangle inequality by two nested inductions); divergence_i / curl_i = neighbour averages of D_ij.(u_j-u_i) / D_ij x (u_j-u_i) with D the minimum image of remove_pbc (nested symbolic loops summarised and checked inductively), 2-D returns the divergence only; vibrability_i = sum_l |e_li|^2/omega_l^2 and the saved array is the returned one; vector_decomposition_sq: L_FFT = round8(qhat (qhat.F)), T_FFT = round8(F - L), Sq_L/Sq_T = round8(|L|^2/|T|^2), transform columns kept, L parallel to q, L + T = F, qhat.T = (1-|qhat|^2)(qhat.F), |L|^2+|T|^2-|F|^2 = 2(|qhat|^2-1)|qhat.F|^2 (so S = S_L + S_T whenever |qhat| = 1), averaged frame = group means over equal q, csv = averaged frame; no input array is written. On the unfixed repository vector_decomposition_sq raises for every input (in-place division of the read-only DataFrame.values array, pandas 3): exc-free fails with a failing replay; with design_notes/C15.fix-1.diff every obligation is proved.",
